@@ -12,6 +12,7 @@ mod ops;
 mod run;
 mod sink;
 mod util;
+mod wrap;
 
 #[global_allocator]
 static ALLOC: extra::Counting = extra::Counting;
